@@ -583,7 +583,7 @@ def _decl_class(st, name, cdef, rsym, rname, quantum):
             kw["define_as"] = Term(items)
     if rsym != "-":
         kw["ref_unit_symbol"] = opt_str(rsym)
-    if rname == "1":
+    if rname == "1" or rname.endswith(":1"):
         kw["ref_unit_name"] = "Name of " + name
     if quantum != "-":
         kw["quantum"] = to_dec_or_frac(parse_rat(quantum))
@@ -593,7 +593,12 @@ def _decl_class(st, name, cdef, rsym, rname, quantum):
     if not hasattr(st, "clsdict"):
         st.clsdict = {}
     ns = st.clsdict if st.n_classes % 2 else {}
-    cls = QuantityMeta(name, (Quantity,), ns, **kw)
+    # a type may be declared as a subclass of another concrete type
+    # (`rname` = sub:<Parent>:0|1); it is a quantity type of its own all the same
+    base = Quantity
+    if rname.startswith("sub:"):
+        base = _cls(st, rname.split(":")[1])
+    cls = QuantityMeta(name, (base,), ns, **kw)
     return "ok " + cls.__name__
 
 
